@@ -160,11 +160,49 @@ def durations(bound):
                     v = ((h * 60 + m) * 60 + s) * 1000000 + u; us.add(v); us.add(-v)
     return sorted(us)
 
+def compiled_ops(SPEC):
+    """the step from a compiled CONFIGURE ... SET to the operation: the REAL ir.staeval.evaluate_to_config_op on hand-built IR (a literal, `{}`, a set literal), then the real
+    Operation.apply / lookup -- the effective value of a multi-valued setting is exactly the set of the literals written (one falsy literal is still one element)"""
+    from edb.ir import ast as irast, staeval
+    from edb.schema import objects as s_obj, name as sn
+    def tref(n): return irast.TypeRef(id=s_obj.get_known_type_id(n), name_hint=sn.name_from_string(n))
+    STR_T, BOOL_T, INT_T = tref('std::str'), tref('std::bool'), tref('std::int64')
+    def const(v):
+        if isinstance(v, bool): return irast.BooleanConstant(value='true' if v else 'false', typeref=BOOL_T)
+        if isinstance(v, int): return irast.IntegerConstant(value=str(v), typeref=INT_T)
+        return irast.StringConstant(value=v, typeref=STR_T)
+    def expr(values, t):
+        pid = irast.PathId.from_typeref(t)
+        if len(values) == 0: e = irast.EmptySet(typeref=t, path_id=pid)
+        elif len(values) == 1: e = const(values[0])
+        else: e = irast.ConstantSet(elements=tuple(const(v) for v in values), typeref=t)
+        return irast.Set(expr=e, typeref=t, path_id=pid)
+    CARD = qltypes.SchemaCardinality
+    cases = [('strs', CARD.Many, STR_T, vs) for vs in ([], [''], ['a'], ['', 'a'], ['a', 'b'], ['b', '', 'a'])] + \
+            [('a_str', CARD.One, STR_T, [v]) for v in ('', 'x')] + [('a_bool', CARD.One, BOOL_T, [v]) for v in (False, True)]
+    n = 0
+    for name, card, t, vals in cases:
+        for scope in (Scope.SESSION, Scope.DATABASE, Scope.INSTANCE):
+            n += 1
+            ir = irast.ConfigSet(name=name, scope=scope, cardinality=card, required=False, requires_restart=False, backend_setting=None, is_system_config=False, expr=expr(vals, t))
+            try: op = staeval.evaluate_to_config_op(ir, schema=None)
+            except Exception as e: return n, dict(problem='evaluate_to_config_op raised %r' % (e,), setting=name, literals=vals)
+            if op.opcode is not ops.OpCode.CONFIG_SET or op.scope is not scope or op.setting_name != name:
+                return n, dict(problem='compiled operation is %r' % (op,), setting=name, literals=vals)
+            store = op.apply(SPEC, immutables.Map())
+            eff = config.lookup(name, store, spec=SPEC)
+            want = frozenset(vals) if card is CARD.Many else vals[0]
+            if norm(eff) != norm(want):
+                return n, dict(problem='CONFIGURE %s SET %s := %r compiles to value %r; effective value %r, expected %r' % (scope, name, vals, op.value, eff, want), setting=name, literals=vals)
+    return n, None
+
 def main():
     seed, nh, maxlen, dbound, out = int(sys.argv[1]), int(sys.argv[2]), int(sys.argv[3]), int(sys.argv[4]), sys.argv[5]
     rnd = random.Random(seed); SPEC = make_spec()
     res = dict(histories=0, durations=0, memories=0, failure=None)
-    for _ in range(nh):
+    res['compiled'], cf = compiled_ops(SPEC)
+    if cf: res['failure'] = dict(kind='compiled-set', **cf)
+    for _ in range(nh if not res['failure'] else 0):
         h = [gen_step(rnd) for _ in range(rnd.randint(1, maxlen))]
         res['histories'] += 1
         f = run_history(h, SPEC)
